@@ -105,3 +105,70 @@ class PoolMonitor(object):
                     st.obligations.append(Obligation("%s/monitor[uncount_only_once]" % ex.env.fn.key, st.hyps(), counted,
                                                      st.sig, "monitor", "uncount_only_once", ex.env.contract.props))
                     st.ghost["w_counted"] = z3.BoolVal(False)
+
+
+# --- FutureResult: the registration slot (C16) ---------------------------------------------------------------------------
+SLOT_LOCK = "_FutureResult__lock"
+SLOT = ("_FutureResult__callback", "_FutureResult__extra")
+
+
+class SlotMonitor(object):
+    """Lock discipline of FutureResult's registration slot.
+
+    * `__callback` / `__extra` are read and written only while `__lock` is held (`lock-discipline`), except in the
+      constructor, where the object is not shared yet;
+    * when the lock is acquired the slot holds arbitrary values (another thread may have registered or consumed a
+      callback since this thread last looked): both fields are havocked;
+    * when it is released one entry (seen callback, seen extra, left callback, left extra) is appended to the ghost
+      `slot_log`; the contracts of __notify / set_callback / execute are stated over that log, so "the registration
+      is stored in one atomic step" and "a callback is consumed (read and cleared) in one atomic step" are
+      postconditions."""
+
+    def __init__(self, constructor=False):
+        self.constructor = constructor
+
+    def self_obj(self, st):
+        return st.locals.get("self")
+
+    def is_lock(self, ex, st, cm):
+        me = self.self_obj(st)
+        if me is None or not z3.is_expr(cm):
+            return False
+        return not ex.feasible(st, cm != st.read(Val.ref(me), SLOT_LOCK))
+
+    def acquire(self, ex, st, cm):
+        me = self.self_obj(st)
+        if st.locks:
+            # threading.Lock is not re-entrant: acquiring it again would block forever
+            st.obligations.append(Obligation("%s/lock-discipline[not re-entered]" % ex.env.fn.key, st.hyps(), z3.BoolVal(False),
+                                             st.sig, "lock-discipline", "not re-entered", ex.env.contract.props))
+        seen = []
+        for f in SLOT:
+            nv = V.fresh("locked_" + f)
+            st.write(Val.ref(me), f, nv)
+            seen.append(nv)
+        st.locks.append(("slot", seen[0], seen[1]))
+
+    def release(self, ex, st, cm, ctl):
+        me = self.self_obj(st)
+        top = st.locks.pop() if st.locks else ("slot", V.VNone, V.VNone)
+        seen = top[1:]
+        left = [st.read(Val.ref(me), f) for f in SLOT]
+        entry = V.mk_tuple([seen[0], seen[1], left[0], left[1]])
+        ex.env.trusted.ghost_append(st, "slot_log", entry)
+
+    def on_write(self, ex, st, obj, attr):
+        self._access(ex, st, obj, attr, "write")
+
+    def on_read(self, ex, st, obj, attr):
+        self._access(ex, st, obj, attr, "read")
+
+    def _access(self, ex, st, obj, attr, how):
+        me = self.self_obj(st)
+        if me is None or attr not in SLOT or self.constructor:
+            return
+        if not obj.eq(me) and ex.feasible(st, Val.ref(obj) != Val.ref(me)):
+            return
+        if not st.locks:
+            st.obligations.append(Obligation("%s/lock-discipline[%s %s]" % (ex.env.fn.key, how, attr), st.hyps(), z3.BoolVal(False),
+                                             st.sig, "lock-discipline", "%s %s" % (how, attr), ex.env.contract.props))
